@@ -231,7 +231,7 @@ class Sched:
                 v = int(self.plan[self.plan_used])
                 self.plan_used += 1
                 self.decisions += 1
-                if v % 2 and self.alarm_at > self.w.clock.now:
+                if v % 2 and self.alarm_at > self.w.clock.now and not self._helper_alive():
                     self.w.fault_fired("thread_stall")
                     self.w.event("sched", "stall", round(self.alarm_at - self.w.clock.now, 6))
                     self.w.clock.advance(self.alarm_at - self.w.clock.now)
@@ -269,6 +269,12 @@ class Sched:
             return v % n, True
         return 0, False
 
+    def _helper_alive(self):
+        try:
+            return bool(self.w.live_helpers())
+        except Exception:
+            return False
+
     def _env_ready(self):
         s = self.session
         if s is None:
@@ -287,7 +293,9 @@ class Sched:
             options = list(runnable)
             if env:
                 options.append("ENV")
-            if timers and (runnable or env):
+            if timers and (runnable or env) and not self._helper_alive():
+                # stalling the whole process while a helper runs against the SUT's own timeout would turn a timeout
+                # into a success (or the reverse) on a tree where the property holds; helper timing has its own faults
                 options.append("TIME")
             if len(options) > 1:
                 i, planned = self._decide(len(options))
